@@ -60,8 +60,8 @@ theorem run_of_steps (evs : List Ev) (st st' : St) (h : steps st evs = .ok st') 
 /-! ### the children of a rendered `<c>` -/
 
 /-- `<f>text</f>` sets the value -/
-theorem steps_formula (p : Bool) (pos : Nat × Nat) (row col : Nat) (out : List (Nat × Nat × Bytes)) (f : Option Bytes) :
-    steps ⟨.cell pos none, row, col, out⟩ (formulaEvents p f) = .ok ⟨.cell pos f, row, col, out⟩ := by
+theorem steps_formula (p : Bool) (pos : Nat × Nat) (row col : Nat) (out : List (Nat × Nat × Bytes)) (tb : SharedFormula.Table) (f : Option Bytes) :
+    steps ⟨.cell pos none, row, col, out, tb⟩ (formulaEvents p f) = .ok ⟨.cell pos f, row, col, out, tb⟩ := by
   cases f with
   | none => simp [formulaEvents, steps]
   | some f =>
@@ -73,7 +73,7 @@ theorem steps_formula (p : Bool) (pos : Nat × Nat) (row col : Nat) (out : List 
 
 /-- `<v>…</v>` is skipped -/
 theorem steps_v (p : Bool) (pos : Nat × Nat) (v : Option Bytes) (row col : Nat) (out : List (Nat × Nat × Bytes))
-    (t : Bytes) : steps ⟨.cell pos v, row, col, out⟩ (vEvents p t) = .ok ⟨.cell pos v, row, col, out⟩ := by
+    (tb : SharedFormula.Table) (t : Bytes) : steps ⟨.cell pos v, row, col, out, tb⟩ (vEvents p t) = .ok ⟨.cell pos v, row, col, out, tb⟩ := by
   unfold vEvents
   by_cases ht : t = []
   · subst ht
@@ -82,12 +82,12 @@ theorem steps_v (p : Bool) (pos : Nat × Nat) (v : Option Bytes) (row col : Nat)
 
 /-- the value children of a cell leave the formula text alone -/
 theorem steps_content (p : Bool) (pos : Nat × Nat) (v : Option Bytes) (c : Content) (row col : Nat)
-    (out : List (Nat × Nat × Bytes)) :
-    steps ⟨.cell pos v, row, col, out⟩ (contentEvents p c).2 = .ok ⟨.cell pos v, row, col, out⟩ := by
+    (out : List (Nat × Nat × Bytes)) (tb : SharedFormula.Table) :
+    steps ⟨.cell pos v, row, col, out, tb⟩ (contentEvents p c).2 = .ok ⟨.cell pos v, row, col, out, tb⟩ := by
   cases c with
   | blank => simp [contentEvents, steps]
-  | num t tn => exact steps_v p pos v row col out t
-  | shared idx => exact steps_v p pos v row col out _
+  | num t tn => exact steps_v p pos v row col out tb t
+  | shared idx => exact steps_v p pos v row col out tb _
   | inline s =>
     simp only [contentEvents]
     have hne : (q p nT = q p nIs) = False := by
@@ -96,27 +96,27 @@ theorem steps_content (p : Bool) (pos : Nat × Nat) (v : Option Bytes) (c : Cont
     · subst hs
       simp [steps, step, getAttr, hne]
     · simp [steps, step, getAttr, hs, hne]
-  | fstr s => exact steps_v p pos v row col out s
-  | bool b => exact steps_v p pos v row col out _
-  | err k => exact steps_v p pos v row col out _
-  | iso s => exact steps_v p pos v row col out s
+  | fstr s => exact steps_v p pos v row col out tb s
+  | bool b => exact steps_v p pos v row col out tb _
+  | err k => exact steps_v p pos v row col out tb _
+  | iso s => exact steps_v p pos v row col out tb s
 
 /-! ### cells, rows, the sheet -/
 
 /-- one rendered `<c>`: `next_formula` returns the cell at its position with the text of its `<f>` (or `""`)
     and moves the column cursor just past it -/
 theorem steps_cell (lay : Layout) (r c cur : Nat) (cs : CellSpec) (hr : r < 1048576) (hc : c < 16384)
-    (out : List (Nat × Nat × Bytes)) :
-    steps ⟨.rows, r, cur, out⟩ (renderCell lay r c cur cs) =
-      .ok ⟨.rows, r, c + 1, (r, c, cs.formula.getD []) :: out⟩ := by
+    (out : List (Nat × Nat × Bytes)) (tb : SharedFormula.Table) :
+    steps ⟨.rows, r, cur, out, tb⟩ (renderCell lay r c cur cs) =
+      .ok ⟨.rows, r, c + 1, (r, c, cs.formula.getD []) :: out, tb⟩ := by
   simp only [renderCell]
   generalize hra : (if (lay.cellExplicit r c || c != cur) = true then [(nR, refName (lay.cellLower r c) r c)] else []) = ra
   have hra' : ra = [] ∨ ∃ v, ra = [(nR, v)] := by
     subst hra; split
     · exact Or.inr ⟨_, rfl⟩
     · exact Or.inl rfl
-  have h1 : steps ⟨.rows, r, cur, out⟩ [.start (q lay.pfx nC) (ra ++ styleAttr cs.style ++ (contentEvents lay.pfx cs.content).1)] =
-      .ok ⟨.cell (r, c) none, r, c, out⟩ := by
+  have h1 : steps ⟨.rows, r, cur, out, tb⟩ [.start (q lay.pfx nC) (ra ++ styleAttr cs.style ++ (contentEvents lay.pfx cs.content).1)] =
+      .ok ⟨.cell (r, c) none, r, c, out, tb⟩ := by
     have hattr := getAttr_cell_r ra hra' cs.style _ (contentEvents_attr lay.pfx cs.content)
     simp only [steps, step, ln_c, nC_ne_nRow, if_false, if_true, hattr]
     subst hra
@@ -128,10 +128,10 @@ theorem steps_cell (lay : Layout) (r c cur : Nat) (cs : CellSpec) (hr : r < 1048
         exact hex.2
       subst hcur
       simp only [hex, Bool.false_eq_true, if_false, List.head?_nil, Option.map_none]
-  have h2 := steps_formula lay.pfx (r, c) r c out cs.formula
-  have h3 := steps_content lay.pfx (r, c) cs.formula cs.content r c out
-  have h4 : steps ⟨.cell (r, c) cs.formula, r, c, out⟩ [.stop (q lay.pfx nC)] =
-      .ok ⟨.rows, r, c + 1, (r, c, cs.formula.getD []) :: out⟩ := by
+  have h2 := steps_formula lay.pfx (r, c) r c out tb cs.formula
+  have h3 := steps_content lay.pfx (r, c) cs.formula cs.content r c out tb
+  have h4 : steps ⟨.cell (r, c) cs.formula, r, c, out, tb⟩ [.stop (q lay.pfx nC)] =
+      .ok ⟨.rows, r, c + 1, (r, c, cs.formula.getD []) :: out, tb⟩ := by
     have : satAdd c 1 = c + 1 := satAdd_eq (by simp only [U32]; omega)
     simp [steps, step, this]
   rw [List.append_assoc, List.append_assoc, steps_append_ok _ _ _ _ h1, steps_append_ok _ _ _ _ h2,
@@ -146,15 +146,15 @@ def formulasOf (s : Sheet) : List (Nat × Nat × Bytes) :=
   s.flatMap fun row => rowFormulas row.1 row.2
 
 theorem steps_cells (lay : Layout) (r : Nat) (hr : r < 1048576) (cells : List (Nat × CellSpec))
-    (cur : Nat) (hinc : Increasing 16384 cur cells) (out : List (Nat × Nat × Bytes)) :
-    ∃ col, steps ⟨.rows, r, cur, out⟩ (renderCells lay r cur cells) =
-      .ok ⟨.rows, r, col, (rowFormulas r cells).reverse ++ out⟩ := by
+    (cur : Nat) (hinc : Increasing 16384 cur cells) (out : List (Nat × Nat × Bytes)) (tb : SharedFormula.Table) :
+    ∃ col, steps ⟨.rows, r, cur, out, tb⟩ (renderCells lay r cur cells) =
+      .ok ⟨.rows, r, col, (rowFormulas r cells).reverse ++ out, tb⟩ := by
   induction cells generalizing cur out with
   | nil => exact ⟨cur, by simp [renderCells, steps, rowFormulas]⟩
   | cons cell rest ih =>
     obtain ⟨c, cs⟩ := cell
     obtain ⟨_, hc, hrest⟩ := hinc
-    have h1 := steps_cell lay r c cur cs hr hc out
+    have h1 := steps_cell lay r c cur cs hr hc out tb
     obtain ⟨col, h2⟩ := ih (c + 1) hrest ((r, c, cs.formula.getD []) :: out)
     refine ⟨col, ?_⟩
     simp only [renderCells]
@@ -162,17 +162,17 @@ theorem steps_cells (lay : Layout) (r : Nat) (hr : r < 1048576) (cells : List (N
     simp [rowFormulas]
 
 theorem steps_rows (lay : Layout) (s : Sheet) (cur : Nat) (hinc : Increasing 1048576 cur s)
-    (hcols : ∀ row ∈ s, Increasing 16384 0 row.2) (out : List (Nat × Nat × Bytes)) :
-    ∃ row, steps ⟨.rows, cur, 0, out⟩ (renderRows lay cur s) =
-      .ok ⟨.rows, row, 0, (formulasOf s).reverse ++ out⟩ := by
+    (hcols : ∀ row ∈ s, Increasing 16384 0 row.2) (out : List (Nat × Nat × Bytes)) (tb : SharedFormula.Table) :
+    ∃ row, steps ⟨.rows, cur, 0, out, tb⟩ (renderRows lay cur s) =
+      .ok ⟨.rows, row, 0, (formulasOf s).reverse ++ out, tb⟩ := by
   induction s generalizing cur out with
   | nil => exact ⟨cur, by simp [renderRows, steps, formulasOf]⟩
   | cons rowspec rest ih =>
     obtain ⟨r, cells⟩ := rowspec
     obtain ⟨_, hr, hrest⟩ := hinc
-    have h1 : steps ⟨.rows, cur, 0, out⟩
+    have h1 : steps ⟨.rows, cur, 0, out, tb⟩
         [.start (q lay.pfx nRow) (if (lay.rowExplicit r || r != cur) = true then [(nR, dec (r + 1))] else [])] =
-        .ok ⟨.rows, r, 0, out⟩ := by
+        .ok ⟨.rows, r, 0, out, tb⟩ := by
       by_cases hex : (lay.rowExplicit r || r != cur) = true
       · simp only [hex, if_true, steps, step, ln_row, getAttr, List.find?, beq_self_eq_true, Option.map_some]
         rw [getRow_dec r (by simp only [U32]; omega)]
@@ -182,9 +182,9 @@ theorem steps_rows (lay : Layout) (s : Sheet) (cur : Nat) (hinc : Increasing 104
         subst hcur
         have hre : lay.rowExplicit r = false := by simpa using hex
         simp [hre, steps, step, getAttr]
-    obtain ⟨col, h2⟩ := steps_cells lay r hr cells 0 (hcols (r, cells) (by simp)) out
-    have h3 : steps ⟨.rows, r, col, (rowFormulas r cells).reverse ++ out⟩ [.stop (q lay.pfx nRow)] =
-        .ok ⟨.rows, r + 1, 0, (rowFormulas r cells).reverse ++ out⟩ := by
+    obtain ⟨col, h2⟩ := steps_cells lay r hr cells 0 (hcols (r, cells) (by simp)) out tb
+    have h3 : steps ⟨.rows, r, col, (rowFormulas r cells).reverse ++ out, tb⟩ [.stop (q lay.pfx nRow)] =
+        .ok ⟨.rows, r + 1, 0, (rowFormulas r cells).reverse ++ out, tb⟩ := by
       have : satAdd r 1 = r + 1 := satAdd_eq (by simp only [U32]; omega)
       simp [steps, step, this]
     obtain ⟨row, h4⟩ := ih (r + 1) hrest (fun x hx => hcols x (by simp [hx])) ((rowFormulas r cells).reverse ++ out)
@@ -199,10 +199,11 @@ theorem readFormulas_render (s : Sheet) (lay : Layout) (hwf : s.WF) (hdim : lay.
     readFormulas (renderSheet s lay) = .ok (formulasOf s) := by
   unfold readFormulas
   rw [readerNew_render s lay hdim]
-  obtain ⟨row, h1⟩ := steps_rows lay s 0 hwf.1 hwf.2 []
-  have h2 : steps ⟨.rows, row, 0, (formulasOf s).reverse ++ []⟩
+  obtain ⟨row, h1⟩ := steps_rows lay s 0 hwf.1 hwf.2 [] []
+  let tb : SharedFormula.Table := []
+  have h2 : steps ⟨.rows, row, 0, (formulasOf s).reverse ++ [], tb⟩
       [.stop (q lay.pfx nSheetData), .stop (q lay.pfx nWorksheet)] =
-      .ok ⟨.done, row, 0, (formulasOf s).reverse ++ []⟩ := by
+      .ok ⟨.done, row, 0, (formulasOf s).reverse ++ [], tb⟩ := by
     simp [steps, step]
   have h3 := steps_append_ok _ _ _ [Ev.stop (q lay.pfx nSheetData), .stop (q lay.pfx nWorksheet)] h1
   rw [h2] at h3
